@@ -99,6 +99,7 @@ static Verdict exec_ple(const Case &c) {
         }
     if (!base && n > 64 && (long)((n + 63) / 64) * nz > plecut) x.v.label("recursive");
     if (nz < m) x.v.label("trailing-zero-rows");
+    if (c.s("A.prof", "") == "halves" && !base && n > 64 && (long)((n + 63) / 64) * nz > plecut) x.v.label("recursive:left-half-rank-multiple-of-64");
     if (c.i("pq.kind", 0)) x.v.label("junk-PQ");
     x.v.nontrivial = rk > 0 && (rk < std::min(m, n) || gaps);
     return x.v;
